@@ -1,5 +1,6 @@
 import Refinery.Model.Reload
 import Refinery.Lemmas.Reload
+import Refinery.Lemmas.ReloadSolo
 /-!
 # C27 — config reloads apply exactly the acceptable changes
 
@@ -343,6 +344,16 @@ theorem concurrent_once_fixed (aw : Bool) : ConcurrentOnce aw .serial := by
   refine ⟨h.sorted, concurrent_notify_once_partial aw .serial n L f sched, ?_⟩
   intro _ ⟨t, _, hd, hv⟩ hr
   exact h.q t hd hv hr
+
+/-- **A trigger that runs alone is the sequential `Reload`** (every shape): from a state where
+trigger `t` has not fired and the reload mutex is free, letting `t` run to completion with nothing
+interleaved changes the sequential view of the state (files, running configuration, per-listener
+callback counts, number of applied changes) exactly as `Seq.reload` does.  This ties the
+overlapping-trigger machine to the sequential machine that is replayed against the real code. -/
+theorem solo_trigger_is_reload (aw : Bool) (lk : Lock) (s : CSt) (t : Nat) (ht : t < s.n)
+    (hidle : (s.thr t).pc = .idle) (hfree : s.holder = none) :
+    seqView aw (solo aw lk s t (s.L + 4)) = (Seq.reload (seqView aw s)).1 :=
+  seqView_solo aw lk s t ht hidle hfree
 
 /-- in the repaired shape the double-apply schedule applies once and notifies once -/
 example : (crun true .serial (cinit 2 1 f0) doubleApplySchedule).apvers = [1] ∧
